@@ -62,7 +62,12 @@ def garbage(rng):
 
 def clean(sql):
     """the case line uses ' | ' and ' ;; ' as separators and one line per case"""
-    sql = sql.replace("\n", " ").replace("\r", " ").replace(" | ", " || ").replace(" ;; ", " ; ")
+    import re
+    sql = sql.replace("\n", " ").replace("\r", " ")
+    sql = re.sub(r"\|{3,}", "||", sql)
+    sql = re.sub(r"(?<!\|)\|(?!\|)", "!", sql)          # a lone pipe would read as the case separator
+    while " ;; " in sql:
+        sql = sql.replace(" ;; ", " ; ")
     return sql.strip() or "?"
 
 
@@ -131,12 +136,13 @@ def oracle(case, il):
         if s in ("err:panic", "hang") or s.startswith("abort"):
             return ("statement %d did not return a result or an error: %s" % (i, s), i)
         now = [segs[j] for j in reads]
-        if any(x in ("err:panic", "hang") or x.startswith("err") for x in now):
-            return ("after statement %d (%s) the tables can no longer be read: %s" % (i, s, now), reads[0])
+        if any(x in ("err:panic", "hang") for x in now):
+            return ("after statement %d (%s) reading a table panics or hangs: %s" % (i, s, now), reads[0])
         if s.startswith("err") and now != prev:
             return ("statement %d reported an error but changed the data: %s -> %s" % (i, prev, now), reads[0])
         prev = now
-    if not segs[case.meta["final"]].startswith("count:1"):
+    if not segs[case.meta["final"]].startswith("count:1") and not any(a.split(" ", 1)[-1].lstrip("0123456789 ").upper().startswith(("DROP TABLE T1", "ALTER TABLE T1"))
+                                                                   for a in case.rust.split(" | ")):
         return ("the database does not accept an INSERT after the statements: %s" % segs[case.meta["final"]], case.meta["final"])
     return None
 
@@ -145,10 +151,24 @@ class C16(Spec):
     id = "C16"
     design_ref = "7 (C16)"
     gen_tables = ["GenPratt.v"]
-    model_targets = ["theories/Model/PrattRun.vo"]
+    model_targets = ["theories/Model/PrattRun.vo", "theories/Proofs/PrattTermination.vo"]
     prop_vo = "theories/Props/C16.vo"
     prop_module = "Props.C16"
-    theorems = ["C16_holds"]
+    theorems = ["C16_parser_terminates", "C16_reference_total"]
+    rule = ("statements: two small tables, then 4-14 statements drawn from: random printable / non-ASCII strings, soups of SQL "
+            "keywords and symbols, truncated valid statements, valid statements with characters replaced / inserted / deleted, "
+            "parentheses / NOT / operator chains nested 5-2000 deep, and a list of 60 well-formed statements that must fail or be "
+            "harmless (division and modulo by zero, integer overflow, oversized literals, wrong types, wrong arity, unknown tables / "
+            "columns, aggregates and sub-queries in odd places, duplicate names, empty lists, unterminated strings and comments, a "
+            "70000-byte literal), in autocommit or inside one session; both tables are read after every statement and an INSERT is "
+            "made at the end.  Oracle: no statement answers with a panic or a hang (60 s watchdog) and none kills the process; a "
+            "statement that reports an error leaves both tables as they were; the final INSERT succeeds.  There is no model to "
+            "compare with in this stream.  pexpr: the parser facade against the Pratt model on printed trees and mutated token "
+            "sequences (as in C05)")
+    trusted_extra = ["the termination theorem is about the Pratt model (core expression grammar, regenerated binding powers); the "
+                     "statement-level parser, lexer, binder and executor are covered by the fuzz stream only",
+                     "hangs are detected by a per-case watchdog of AXV_CASE_TIMEOUT seconds (default 30) in the harness",
+                     "the harness builds with overflow checks, as the project's own test profile does: arithmetic overflow panics there"]
     streams = [Stream("statements", "sql", [], None, gen_cases, oracle=oracle, canon=canon, rust_shards=8,
                       nontrivial=lambda c, il: "err" in il),
                Stream("pexpr", "pexpr", ["Base.Bytes", "Model.PrattOps", "Model.Pratt", "Model.PrattRun"], "run_pexpr_case", gen_pexpr,
